@@ -3218,7 +3218,14 @@ impl Zeroconf {
                     }
 
                     if service.matches_type_or_subtype(q_name) {
-                        out.add_answer_with_additionals(&msg, service, intf, dns_registry, is_ipv4);
+                        out.add_answer_with_additionals(
+                            &msg,
+                            q_name,
+                            service,
+                            intf,
+                            dns_registry,
+                            is_ipv4,
+                        );
                     } else if q_name == META_QUERY {
                         let ttl = service.get_other_ttl();
                         let alias = service.get_type().to_string();
